@@ -28,6 +28,7 @@ var (
 	coinbase = common.BytesToAddress([]byte{0xcb})
 	target   = common.BytesToAddress([]byte{0xc0, 0xde})
 	auxAddr  = common.BytesToAddress([]byte{0x0b, 0x0b})
+	aux2Addr = common.BytesToAddress([]byte{0x0d, 0x0d})
 	emptyAcc = common.BytesToAddress([]byte{0xee})
 	gasPrice = big.NewInt(1000000000)
 	timeNow  = big.NewInt(1700000000)
@@ -43,6 +44,18 @@ type recorder struct {
 }
 
 var cur *recorder // the recorder of the run in progress (precompile wrappers write to it)
+
+// a state mutation: must not happen while the call structure says we are inside a STATICCALL
+func (r *recorder) mut(what string) {
+	if obs != nil && obs.insideStatic() {
+		key := "state-write-inside-static"
+		if n := len(obs.frames); n > 0 && obs.frames[n-1].lastOp == 0xf7 {
+			// evm.AuthCall: nonce bump of the authorised account / value transfer from the sponsor
+			key = "authcall-writes-inside-static"
+		}
+		obs.add(key, "StateDB."+what+" executed inside a frame entered (transitively) through STATICCALL")
+	}
+}
 
 func (r *recorder) add(s string) {
 	r.tape = append(r.tape, s)
@@ -68,6 +81,9 @@ func b01(b bool) string {
 func (r *recorder) CreateAccount(a common.Address) { r.add("ca:" + ha(a)); r.inner.CreateAccount(a) }
 func (r *recorder) SubBalance(a common.Address, x *big.Int) *big.Int {
 	r.add("sb:" + ha(a) + ":" + hbig(x))
+	if x != nil && x.Sign() != 0 {
+		r.mut("SubBalance(" + ha(a) + ", " + x.String() + ")")
+	}
 	return r.inner.SubBalance(a, x)
 }
 func (r *recorder) AddBalance(a common.Address, x *big.Int) {
@@ -86,6 +102,7 @@ func (r *recorder) GetNonce(a common.Address) uint64 {
 }
 func (r *recorder) SetNonce(a common.Address, n uint64) {
 	r.add("sn:" + ha(a) + ":" + strconv.FormatUint(n, 10))
+	r.mut("SetNonce(" + ha(a) + ")")
 	r.inner.SetNonce(a, n)
 }
 func (r *recorder) GetCodeHash(a common.Address) common.Hash {
@@ -100,6 +117,7 @@ func (r *recorder) GetCode(a common.Address) []byte {
 }
 func (r *recorder) SetCode(a common.Address, c []byte) {
 	r.add("sc:" + ha(a) + ":" + hb(c))
+	r.mut("SetCode(" + ha(a) + ")")
 	r.inner.SetCode(a, c)
 }
 func (r *recorder) GetCodeSize(a common.Address) int {
@@ -126,6 +144,7 @@ func (r *recorder) GetState(a common.Address, k common.Hash) common.Hash {
 }
 func (r *recorder) SetState(a common.Address, k, v common.Hash) {
 	r.add("sst:" + ha(a) + ":" + hh(k) + ":" + hh(v))
+	r.mut("SetState(" + ha(a) + ")")
 	r.inner.SetState(a, k, v)
 }
 func (r *recorder) GetTransientState(a common.Address, k common.Hash) common.Hash {
@@ -135,9 +154,11 @@ func (r *recorder) GetTransientState(a common.Address, k common.Hash) common.Has
 }
 func (r *recorder) SetTransientState(a common.Address, k, v common.Hash) {
 	r.add("sts:" + ha(a) + ":" + hh(k) + ":" + hh(v))
+	r.mut("SetTransientState(" + ha(a) + ")")
 	r.inner.SetTransientState(a, k, v)
 }
 func (r *recorder) Suicide(a common.Address) bool {
+	r.mut("Suicide(" + ha(a) + ")")
 	v := r.inner.Suicide(a)
 	r.add("su:" + ha(a) + "=" + b01(v))
 	return v
@@ -187,6 +208,7 @@ func (r *recorder) AddLog(l *types.Log) {
 		ts[i] = hh(t)
 	}
 	r.add("lg:" + ha(l.Address) + ":" + strings.Join(ts, ".") + ":" + hb(l.Data))
+	r.mut("AddLog(" + ha(l.Address) + ")")
 	r.inner.AddLog(l)
 }
 
@@ -267,6 +289,8 @@ type world struct {
 	rec *recorder
 }
 
+var worldAux2 []byte // code of the third contract for the next world (nil = none)
+
 func newWorld(code, aux []byte) *world {
 	mem, _ := db.NewMemDatabase()
 	adb, err := account.NewAccountDB(common.Hash{}, account.NewDatabase(mem))
@@ -280,6 +304,11 @@ func newWorld(code, aux []byte) *world {
 	}
 	if aux != nil {
 		adb.SetCode(auxAddr, aux)
+		adb.AddBalance(auxAddr, big.NewInt(5000))
+	}
+	if worldAux2 != nil {
+		adb.SetCode(aux2Addr, worldAux2)
+		adb.AddBalance(aux2Addr, big.NewInt(5000))
 	}
 	adb.CreateAccount(emptyAcc)
 	return &world{adb: adb, rec: &recorder{inner: adb}}
